@@ -123,3 +123,22 @@ def nests(depth, a, b):
     pieces.append('z')
     pieces += list(reversed(closers))
     yield '%d/%d' % (a, b), pieces
+
+
+FRESH = ['#', '\\', ' ', '{', '}', '\\(', '\\)', 'a', '$', '[', ']']
+
+
+def fresh_char_strings(nmax=4):
+    """every string of <= nmax symbols of FRESH that contains the placeholder '#'; in the k-th string the placeholder
+    stands for a non-ASCII character that no earlier string contains (chr(0x100 + k), blanks skipped)"""
+    k = 0
+    for n in range(1, nmax + 1):
+        for t in itertools.product(FRESH, repeat=n):
+            if '#' not in t:
+                continue
+            ch = chr(0x100 + k)
+            k += 1
+            while ch.isspace() or not ch.isprintable():
+                ch = chr(0x100 + k)
+                k += 1
+            yield ''.join(ch if x == '#' else x for x in t)
